@@ -1988,12 +1988,14 @@ func runC11Nearest(c *Ctx) {
 	problem, undec := "", ""
 	models := 0
 	type tc struct {
-		invoke bool
-		rid    float64
+		invoke  bool
+		rid     float64
+		nilRoot bool
 	}
-	for _, t := range []tc{{false, 0}, {true, 7}, {true, 0}, {true, -1}, {true, -5}} {
+	for _, t := range []tc{{false, 0, false}, {false, 0, true}, {true, 7, false}, {true, 0, false}, {true, -1, false}, {true, -5, false}} {
 		models++
-		m := &Model{Num: map[string]float64{}, Bool: map[string]bool{}, Missing: map[string]bool{}}
+		// an empty tree has a nil root (only consulted by code that tests it)
+		m := &Model{Num: map[string]float64{}, Bool: map[string]bool{"($0.root==nil)": t.nilRoot, "($0.root!=nil)": !t.nilRoot}, Missing: map[string]bool{}}
 		it := &k4interp{p: c.P, m: m, mem: map[string]k4val{}}
 		var hookErr error
 		driven := false
@@ -2015,7 +2017,7 @@ func runC11Nearest(c *Ctx) {
 			return k4val{}, false
 		}
 		res, err := it.call(f, []k4val{{kind: 3, s: "$0"}, {kind: 3, s: "$1"}}, nil)
-		if err != nil || hookErr != nil || !driven || len(res) != 2 || res[1].kind != 1 {
+		if err != nil || hookErr != nil || (!driven && !t.nilRoot) || len(res) != 2 || res[1].kind != 1 {
 			undec = fmt.Sprintf("%v %v driven=%v %v %s", err, hookErr, driven, res, missingList(m))
 			break
 		}
@@ -4278,12 +4280,22 @@ func runC06Lengths(c *Ctx) {
 	}
 	fn := FuncName(f)
 	n := 0
-	fs := []*ssa.Function{f}
-	eachCall(f, func(ci ssa.CallInstruction) {
-		if cal := staticCallee(ci); cal != nil && isNewHelper(cal) {
-			fs = append(fs, cal)
+	var fs []*ssa.Function
+	for _, g := range withNewHelpers(f) {
+		fs = append(fs, g)
+		for _, a := range allAnon(g) {
+			fs = append(fs, a)
+			for _, h := range withNewHelpers(a)[1:] {
+				fs = append(fs, h)
+			}
 		}
-	})
+	}
+	inGroup := map[*ssa.Function]bool{}
+	for _, g := range fs {
+		inGroup[g] = true
+	}
+	goodRecord := map[*ssa.MapUpdate]bool{}
+	defer func() { runC06LengthsCoverage(c, f, fs, inGroup, goodRecord) }()
 	for _, g := range fs {
 		eachInstr(g, func(in ssa.Instruction) {
 			mu, ok := in.(*ssa.MapUpdate)
@@ -4311,12 +4323,90 @@ func runC06Lengths(c *Ctx) {
 					}
 				}
 			}
+			goodRecord[mu] = isB && b && keyIsLen
 			c.Check(isB && b && keyIsLen, mu.Pos(), fn, construct, "hasLength[len(position)] = true", "a visited position is not recorded as hasLength[len(position)] = true: the 2D/3D decision of the document no longer sees it (mixed 2D/3D input may decode as 3D, all-3D input as 2D)")
 		})
 	}
-	if n < 3 {
-		c.Errorf("only %d position-length records found in detectCoordinatesLengths, expected >= 3", n)
+	if n < 1 {
+		c.Errorf("no position-length record found in detectCoordinatesLengths")
 	}
+}
+
+// runC06LengthsCoverage: each coordinate-carrying case of the node type switch
+// reaches a record of position lengths, directly or through closures / new
+// helpers / the function itself.
+func runC06LengthsCoverage(c *Ctx, f *ssa.Function, fs []*ssa.Function, inGroup map[*ssa.Function]bool, good map[*ssa.MapUpdate]bool) {
+	records := map[*ssa.Function]bool{}
+	for changed := true; changed; {
+		changed = false
+		for _, g := range fs {
+			if records[g] {
+				continue
+			}
+			eachInstr(g, func(in ssa.Instruction) {
+				if mu, ok := in.(*ssa.MapUpdate); ok && good[mu] {
+					records[g] = true
+				}
+				if ci, ok := in.(ssa.CallInstruction); ok {
+					if cal := staticCallee(ci); cal != nil && cal != g && inGroup[cal] && records[cal] {
+						records[g] = true
+					}
+				}
+			})
+			if records[g] {
+				changed = true
+			}
+		}
+	}
+	want := map[string]bool{"geojsonPoint": true, "geojsonLineString": true, "geojsonPolygon": true, "geojsonMultiPoint": true, "geojsonMultiLineString": true, "geojsonMultiPolygon": true}
+	fn := FuncName(f)
+	eachInstr(f, func(in ssa.Instruction) {
+		ta, ok := in.(*ssa.TypeAssert)
+		if !ok || !ta.CommaOk {
+			return
+		}
+		name := namedName(ta.AssertedType)
+		if !want[name] {
+			return
+		}
+		var entry *ssa.BasicBlock
+		for _, r := range *ta.Referrers() {
+			if ex, ok := r.(*ssa.Extract); ok && ex.Index == 1 {
+				for _, r2 := range *ex.Referrers() {
+					if ifi, ok := r2.(*ssa.If); ok {
+						entry = ifi.Block().Succs[0]
+					}
+				}
+			}
+		}
+		if entry == nil {
+			return
+		}
+		found := false
+		seen := map[*ssa.BasicBlock]bool{entry: true}
+		work := []*ssa.BasicBlock{entry}
+		for len(work) > 0 {
+			b := work[len(work)-1]
+			work = work[:len(work)-1]
+			for _, bi := range b.Instrs {
+				if mu, ok := bi.(*ssa.MapUpdate); ok && good[mu] {
+					found = true
+				}
+				if ci, ok := bi.(ssa.CallInstruction); ok {
+					if cal := staticCallee(ci); cal != nil && inGroup[cal] && records[cal] {
+						found = true
+					}
+				}
+			}
+			for _, sb := range b.Succs {
+				if !seen[sb] {
+					seen[sb] = true
+					work = append(work, sb)
+				}
+			}
+		}
+		c.Check(found, ta.Pos(), fn, "positions of a "+name+" node are recorded", "the case reaches a hasLength[len(position)] = true record", "the "+name+" case of the node type switch records no position length: the 2D/3D decision of the document does not see this node's positions (a 2-element position next to 3-element ones is then read out of range)")
+	})
 }
 
 // everAccumulated: the divisor, when it is a local or captured variable, is stored to somewhere other than its declaration
